@@ -64,7 +64,7 @@ def read_raw(text):
     for k, d in enumerate(fsh):
         net['shunts'].append(dict(idx='sh%d' % k, bus=d[0], Sn=mva, Vn=kv[d[0]], g=d[3] / mva, b=d[4] / mva, u=int(d[2])))
     for k, d in enumerate(genrec):
-        g = dict(idx=k + 1, bus=d[0], Sn=float(d[8]), Vn=kv[d[0]], p0=d[2] / mva, q0=d[3] / mva, v0=float(d[6]), u=int(d[14]))
+        g = dict(idx=k + 1, bus=d[0], sub=d[1], Sn=float(d[8]), Vn=kv[d[0]], p0=d[2] / mva, q0=d[3] / mva, v0=float(d[6]), u=int(d[14]))
         if typ[d[0]] == 3:
             g['a0'] = ang[d[0]]
             net['slacks'].append(g)
@@ -137,8 +137,8 @@ def write_raw(net, cw=1, cz=1, windv2=1.0, ixfr=True):
         out.append("%d,'%d',%d,%.17g,%.17g" % (d['bus'], k % 90 + 1, d['u'], d['g'] * mva, d['b'] * mva))
     out.append('0 / END OF FIXED SHUNT DATA, BEGIN GENERATOR DATA')
     for g in net['slacks'] + net['pvs']:
-        out.append("%d,'1',%.17g,%.17g,999.0,-999.0,%.17g,0,%.17g,0.0,0.3,0.0,0.0,1.0,%d,100.0,9999.0,-9999.0,1,1.0"
-                   % (g['bus'], g['p0'] * mva, g['q0'] * mva, g['v0'], g['Sn'], g['u']))
+        out.append("%d,'%s',%.17g,%.17g,999.0,-999.0,%.17g,0,%.17g,%.17g,%.17g,0.0,0.0,1.0,%d,100.0,9999.0,-9999.0,1,1.0"
+                   % (g['bus'], g.get('sub', 1), g['p0'] * mva, g['q0'] * mva, g['v0'], g['Sn'], g.get('zr', 0.0), g.get('zx', 0.3), g['u']))
     out.append('0 / END OF GENERATOR DATA, BEGIN BRANCH DATA')
     lines = [ln for ln in net['lines'] if ln['tap'] == 1.0 and ln['phi'] == 0.0]
     xfr = [ln for ln in net['lines'] if not (ln['tap'] == 1.0 and ln['phi'] == 0.0)]
